@@ -703,6 +703,34 @@ def sampling_statistics(code, em, pf, dists, N, seed):
     return None
 
 
+def _check_siblings(case):
+    """Several model OBJECTS (same class; same direction up to the 4 decimals a label prints, same deformation
+    name, different deformation kwargs) and several code OBJECTS (same class, equal n, another shape) live in
+    one process and are queried one after the other, every model on every code: each answer must be the stated
+    distribution of THAT model on THAT code -- whatever was asked before (caches keyed too coarsely)."""
+    p = parse_rat(case['p'])
+    pf = float(p)
+    codes = [make_code(case['code'], tuple(sz)) for sz in case['sizes']]
+    models = []
+    for m in case['models']:
+        r = tuple(parse_rat(x) for x in m['r'])
+        models.append((r, m.get('deformation'), m.get('kwargs') or {}, make_model(r, m.get('deformation'), m.get('kwargs') or {})))
+    for rnd in range(2):                       # second round: everything is cached by now
+        for mi, (r, dname, dkw, em) in enumerate(models):
+            for ci, code in enumerate(codes):
+                words = deformation_words(code, dname, dkw)
+                arrs = em.probability_distribution(code, pf)
+                for i in range(code.n):
+                    want = stated_dist(p, r, None if words is None else words[i])
+                    got = {s_: fr(arrs[k][i]) for k, s_ in enumerate(LETTERS)}
+                    if got != want:
+                        return (f'round {rnd}, model {mi} (r={[rs(x) for x in r]}, {dname} {dkw}) on code {ci} '
+                                f'{case["code"]}{tuple(case["sizes"][ci])}, qubit {i}: distribution '
+                                f'{ {k: str(v) for k, v in got.items()} } is not the stated '
+                                f'{ {k: str(v) for k, v in want.items()} }')
+    return None
+
+
 def check_case(case):
     """None if the property holds on this input, else a description of the violation."""
     try:
@@ -727,6 +755,8 @@ def _check_case(case):
         want = [t for t in LETTERS if iv[t][0] <= u < iv[t][1]]
         want = want[0] if want else 'Z'
         return None if got == want else f'fast_choice returned {got} for u={u}, weights {case["probs"]}: expected {want}'
+    if kind == 'dist-siblings':
+        return _check_siblings(case)
     code, em, p, r, dists = case_objects(case)
     n = code.n
     pf = float(p)
@@ -959,6 +989,25 @@ def oracle_cases(ctx, deep):
                     if dname is not None:  # XZZX-deformed code objects are not CSS: joint decoder
                         cases.append(dict(base, kind='bposd', code_deformation='XZZX',
                                           decoding=[int(x) for x in rng.integers(0, 2, 2 * n)]))
+    # sibling objects in one process (coarse cache keys: label without kwargs / 4 decimals, class name + n)
+    sib = [('RotatedPlanar2DCode', [(2, 3), (3, 2)]), ('Toric2DCode', [(2, 3), (3, 2)]),
+           ('Toric3DCode', [(2, 2, 3), (3, 2, 2)])] + \
+        ([('RotatedPlanar3DCode', [(2, 2, 3), (2, 3, 2)]), ('Planar2DCode', [(2, 3), (3, 2)]),
+          ('XCubeCode', [(2, 2, 3), (2, 3, 2)])] if deep else [])
+    for name, sizes in sib:
+        opts = deformation_options(name)
+        byname = {}
+        for dname, dkw in opts:
+            if dname is not None:
+                byname.setdefault(dname, []).append(dkw)
+        r = (Fraction(1, 8), Fraction(1, 8), Fraction(3, 4))
+        r2 = (Fraction(1, 8) + Fraction(1, 2 ** 16), Fraction(1, 8), Fraction(3, 4) - Fraction(1, 2 ** 16))
+        for dname, kws in byname.items():
+            models = [{'r': [rs(x) for x in r], 'deformation': dname, 'kwargs': kw} for kw in kws]
+            models.append({'r': [rs(x) for x in r2], 'deformation': dname, 'kwargs': kws[-1]})
+            models.append({'r': [rs(x) for x in r], 'deformation': None, 'kwargs': {}})
+            cases.append({'kind': 'dist-siblings', 'code': name, 'sizes': [list(x) for x in sizes], 'models': models,
+                          'p': rs(Fraction(1, 4))})
     # statistics of real sampling (mechanism-free): biased directions, deformed and not, tiny to large rates
     stat_codes = [('Toric2DCode', (2, 2)), ('RotatedPlanar2DCode', (3, 3))] + \
         ([('Toric3DCode', (2, 2, 2)), ('RhombicToricCode', (2, 2, 2)), ('Color666ToricCode', (2, 2)),
